@@ -312,8 +312,9 @@ impl W {
 				}
 				self
 			}
-			SV::Map(l, es, _) => {
-				self.t("map").optn(*l).n(es.len());
+			SV::Map(l, es, entry) => {
+				// `mapkv`: presented through the split serialize_key / serialize_value calls
+				self.t(if *entry { "map" } else { "mapkv" }).optn(*l).n(es.len());
 				for (k, v) in es {
 					self.sv(k).sv(v);
 				}
@@ -459,6 +460,7 @@ impl<'a> R<'a> {
 			"tstruct" => SV::TupleStruct(self.xs()?, self.list(|r| r.sv())?),
 			"tvar" => SV::TupleVariant(self.xs()?, self.n()? as u32, self.xs()?, self.list(|r| r.sv())?),
 			"map" => SV::Map(self.optn()?, self.list(|r| Ok((r.sv()?, r.sv()?)))?, true),
+			"mapkv" => SV::Map(self.optn()?, self.list(|r| Ok((r.sv()?, r.sv()?)))?, false),
 			"struct" => SV::Struct(self.xs()?, self.list(|r| Ok((r.xs()?, r.sv()?)))?),
 			"svar" => SV::StructVariant(
 				self.xs()?,
